@@ -127,6 +127,13 @@ Definition enum_conv (to attrs : rconv) : option enum_id :=
   | _, _ => None
   end.
 
+(* for a payload of full length (C01) the attribute is never None, so the enumeration class itself is as good *)
+Definition enum_conv_full (to attrs : rconv) : option enum_id :=
+  match to, attrs with
+  | RNone, REnumCtor e => Some e
+  | _, _ => enum_conv to attrs
+  end.
+
 (* (dtype, signed, to-converter, attrs-converter) of a model field is the signature the layout kind demands *)
 Definition sig_ok (k : kind) (f : field) : bool :=
   let to := resolve (f_to f) in
@@ -145,7 +152,7 @@ Definition sig_ok (k : kind) (f : field) : bool :=
   | KT => dtype_eqb dt DStr && is_none to && is_none at_
   | KD | KX => dtype_eqb dt DBytes && is_none to && is_none at_
   | KE e => dtype_eqb dt DInt && negb sg && Nat.leb (f_width f) 8 &&
-            match enum_conv to at_ with
+            match enum_conv_full to at_ with
             | Some e' => String.eqb (enum_name e') (senum_name e)
             | None => false
             end
